@@ -78,7 +78,7 @@ pub fn run_c14(out: &mut Out, _rng: &mut Rng, tier: Tier) -> String {
     pairs::<()>(out, 2);
     pairs::<u32>(out, 2);
     pairs::<Cm>(out, 2);
-    for ((dr, dc), (sr, sc)) in [((64usize, 65usize), (65usize, 64usize)), ((33, 32), (64, 65)), ((64, 65), (64, 65)), ((3, 1400), (1, 4099)), ((4099, 1), (3, 1400))] {
+    for ((dr, dc), (sr, sc)) in [((64usize, 65usize), (65usize, 64usize)), ((33, 32), (64, 65)), ((64, 65), (64, 65)), ((3, 1400), (1, 4099)), ((4099, 1), (3, 1400)), ((257, 300), (300, 257)), ((257, 300), (257, 300))] {
         for dorder in ORDERS {
             for sorder in ORDERS {
                 out.case(&format!("overwrite-large dest={dr}x{dc}{} src={sr}x{sc}{}", ord_ch(dorder), ord_ch(sorder)));
